@@ -20,6 +20,8 @@ import random
 
 from harness import core
 
+JVM = {"JAVA_TOOL_OPTIONS": "-XX:ParallelGCThreads=2"}
+JVM_SMALL = {"JAVA_TOOL_OPTIONS": "-XX:ParallelGCThreads=2 -XX:TieredStopAtLevel=1"}
 NPROC = 6          # worker processes: each pays import + JIT (about 20 s CPU), the jobs themselves are cheap
 STATS = ["mean", "max", "min", "range", "std", "var", "sum"]
 VALS4 = [0, 1, 2, "nan"]
@@ -626,7 +628,7 @@ def judge_kind(ctx, kind, cases, parallel):
         return
     seen = {}
     v = ctx.judge("Focal_Judge", [{k: c[k] for k in FIELDS[kind]} for c in cases], name="replay_" + kind,
-                  parallel=parallel)
+                  parallel=parallel, env=JVM)
     for i, c in enumerate(cases):
         ctx.evaluations += 1
         cl = v.get(i, "missing")
@@ -667,8 +669,9 @@ def run(ctx):
     ]
     rng = random.Random(ctx.seed * 15485863 + 9)
     thorough = ctx.tier == "thorough"
-    def mc(*a, **k):        # quick: 8 TLC workers (less spinning on a shared machine), thorough: 16
-        k.setdefault("workers", ctx.pick(8, 16))
+    def mc(*a, **k):        # quick: 8 TLC workers (less spinning on a shared machine), thorough: 16;
+        k.setdefault("workers", ctx.pick(8, 16))        # 2 GC threads; negative twins are short: C1 compiler only
+        k.setdefault("env", JVM_SMALL if k.get("expect") == "violation" else JVM)
         return ctx.model_check(*a, **k)
     stats_set = core.Raw("{%s}" % ", ".join('"%s"' % s for s in STATS))
     if os.environ.get("VERIF_C09_STAGE") == "R":      # development aid: replay only (mutation testing)
